@@ -34,6 +34,22 @@ pub fn engine(name: &str) -> Option<Engine> {
                 "token backend (the harness issues connect tokens with the library's ConnectToken::generate)",
             ],
         }),
+        "C" => Some(Engine {
+            name: "C",
+            make: crate::eng_c::make_world,
+            gen_cfg: crate::eng_c::gen_cfg,
+            names: crate::eng_c::OP_NAMES,
+            real: &[
+                "renet_netcode::NetcodeServerTransport + renet::RenetServer",
+                "renet_netcode::NetcodeClientTransport + renet::RenetClient",
+                "renetcode (handshake, AEAD, replay window) underneath both transports",
+            ],
+            stub: &[
+                "std::net::UdpSocket replaced by renet_netcode::verif_net::UdpSocket (hook H7): in-memory datagram endpoints with an in-path relay and armed socket-call errors",
+                "clocks (update(dt) driven by the simulator)",
+                "OS randomness (seeded stream, hook H5)",
+            ],
+        }),
         _ => None,
     }
 }
@@ -61,6 +77,7 @@ pub fn plans(prop: &str) -> Vec<Plan> {
         "C09" => vec![p("A", "lossy", 10_000, 300_000, 600), p("A", "budget", 3_000, 60_000, 400)],
         "C13" => vec![p("A", "lossy", 10_000, 300_000, 500), p("B", "session", 3_000, 60_000, 250)],
         "C16" => vec![p("A", "lossy", 8_000, 250_000, 400), p("A", "hostile", 4_000, 100_000, 300), p("B", "hostile", 3_000, 60_000, 250)],
+        "C20" => vec![p("C", "fullstack", 40_000, 1_000_000, 400)],
         "C04" => vec![p("B", "session", 12_000, 300_000, 300)],
         "C05" => vec![p("B", "handshake", 12_000, 300_000, 250)],
         "C07" => vec![p("B", "hostile", 12_000, 300_000, 250)],
